@@ -1,0 +1,43 @@
+//go:build verif
+
+// Machine-checked contracts (read by /verif/bin/fsv; comment-only, guarded by the verif tag).
+// C18 (narrowed): the gRPC interceptors pass the call's arguments, reply and error through unchanged and run every
+// attempt under the merged context.
+
+package failsafegrpc
+
+//@ extfunc github.com/failsafe-go/failsafe-go.Executor.GetWithExecution
+//@   havoc
+
+// client: one attempt = one invoker call with the caller's method, request, reply, connection and options
+//@ func NewUnaryClientInterceptorWithExecutor$1$1
+//@   requires invoker != nil && exec != nil && ctx != nil
+//@   oncall MergeContexts: mctx := callresult_0
+//@   beforecall invoker: assert [C18.grpc.client.arguments] callarg_0 == mctx && callarg_1 == method && callarg_2 == req && callarg_3 == reply && callarg_4 == cc
+//@   ensures [C18.grpc.client.once] ncalls(invoker) == 1 && result_1 == reti(invoker, 1, 0)
+//@   ensures [C18.grpc.client.merged_context] mctx == ctx || mctx == reti(exec.Context, 1) || uf("ctxparent", mctx) == ctx
+//@   havoc
+//@   modifies *
+
+// client: the interceptor returns exactly the executor's error
+//@ func NewUnaryClientInterceptorWithExecutor$1
+//@   requires executor != nil
+//@   ensures [C18.grpc.client.error_passthrough] ncalls(executor.GetWithExecution) == 1 && result == reti(executor.GetWithExecution, 1, 1)
+//@   havoc
+//@   modifies calls(executor.GetWithExecution)
+
+// server: one attempt = one handler call with the caller's request under the merged context; its error is passed back
+//@ func NewUnaryServerInterceptorWithExecutor$1$1
+//@   requires handler != nil && exec != nil && ctx != nil
+//@   oncall MergeContexts: mctx := callresult_0
+//@   beforecall handler: assert [C18.grpc.server.arguments] callarg_0 == mctx && callarg_1 == req
+//@   ensures [C18.grpc.server.once] ncalls(handler) == 1 && result_1 == reti(handler, 1, 1)
+//@   ensures [C18.grpc.server.merged_context] mctx == ctx || mctx == reti(exec.Context, 1) || uf("ctxparent", mctx) == ctx
+//@   havoc
+//@   modifies *
+
+//@ func NewUnaryServerInterceptorWithExecutor$1
+//@   requires executor != nil
+//@   ensures [C18.grpc.server.passthrough] ncalls(executor.GetWithExecution) == 1 && result_1 == reti(executor.GetWithExecution, 1, 1)
+//@   havoc
+//@   modifies calls(executor.GetWithExecution)
